@@ -1,5 +1,6 @@
 //! Kani harnesses over server systems lifted verbatim out of `src/server.rs` (see the header of
 //! the generated parent module for the fakes they run against).
+// REQUIRES: src/server/replication_messages/updates.rs, src/server/replication_messages/mutations.rs
 use super::*;
 use bytes::Bytes;
 use crate::shared::backend::channels::ServerChannel;
